@@ -31,6 +31,7 @@ a = ap.parse_args()
 W = f"/tmp/sv-{a.name}-{os.getpid()}"
 OUT = f"/dev/shm/sv-out-{a.name}-{os.getpid()}"
 HOME = f"/dev/shm/sv-home-{a.name}-{os.getpid()}"
+VSNAP = f"/tmp/sv-verif-{a.name}-{os.getpid()}"   # the checks run from a snapshot of /verif's HEAD: edits made meanwhile do not disturb them
 BASE_FAIL = {"test_conformer_to_lib", "test_ensemble_lib", "test_load_all", "test_loads_all"}
 
 
@@ -49,6 +50,7 @@ def demo(tag):
 
 meta = {"property": a.prop, "name": a.name, "source": "independent sub-agent given only the property record and a scratch worktree"}
 sh(["git", "-C", "/repo", "worktree", "add", "-q", "--detach", W, "HEAD"])
+sh(["git", "-C", "/verif", "worktree", "add", "-q", "--detach", VSNAP, "HEAD"])
 try:
     for f in os.listdir("/repo"):
         if f.startswith("molli_xt") and f.endswith(".so"):
@@ -82,7 +84,7 @@ try:
             e = dict(os.environ)
             e["VERIF_REPO"] = W
             e["VERIF_OUT_DIR"] = OUT
-            p = sh(["/verif/check", cid, "--tier", a.tier], env=e, timeout=7200)
+            p = sh([os.path.join(VSNAP, "check"), cid, "--tier", a.tier], env=e, timeout=7200)
             viol = re.findall(r"VIOLATION property=\S+ replay=\S+\n\s+clause=(\S+) signature=(\S+)", p.stdout)
             meta["checks"][cid] = {"exit": p.returncode, "caught": p.returncode == 1,
                                    "signatures": [s for _c, s in viol][:6], "last_line": p.stdout.strip().splitlines()[-1] if p.stdout.strip() else p.stderr[-300:]}
@@ -92,6 +94,8 @@ try:
 finally:
     sh(["git", "-C", "/repo", "worktree", "remove", "--force", W])
     sh(["git", "-C", "/repo", "worktree", "prune"])
+    sh(["git", "-C", "/verif", "worktree", "remove", "--force", VSNAP])
+    sh(["git", "-C", "/verif", "worktree", "prune"])
     shutil.rmtree(OUT, ignore_errors=True)
 
 if meta.get("confirmed") and not a.no_store:
